@@ -69,6 +69,15 @@ def check(run):
                 run.violation(f"verify_root: the verdict on a drafted pair changes after both documents were written and loaded back ({o_mem} -> {o_disk})",
                               {"kind": "persist_pair", "case": case, "in_memory": o_mem, "after_write_load": o_disk})
     run.extra["root_pairs_before_and_after_persisting"] = npairs
+    # Alias.tla (PersistNeutral): the same for every sharing pattern of the two root rules' key lists, judged against the specification's verdict
+    from .. import alias_engine
+    run.mutant("Alias", "Alias_mut_same_list_skip.cfg", expect="ValueDetermined", timeout=300)
+    ra = run.tlc("Alias", "Alias.cfg", expect_cases=True, timeout=600)
+    for b in alias_engine.replay(run, ra.cases[1::3] if quick else ra.cases, persist=True):
+        if b["why"] != "in-memory verdict" or True:
+            c = b["case"]
+            run.violation(f"root pair with {'shared' if c['shared'] else 'separate'} key lists: {b['why']} is {b['observed']}, the specification's is {b['expected']}",
+                          {"kind": "alias", **b})
     run.exhaustive = True
 
 
